@@ -39,7 +39,7 @@ func main() {
 			if o.Tier == "thorough" {
 				o.Timeout = 120 * time.Second
 			} else {
-				o.Timeout = 25 * time.Second
+				o.Timeout = 60 * time.Second
 			}
 		}
 		if o.Jobs == 0 {
